@@ -705,7 +705,7 @@ rc::Gen<Op> gen_op(bool concurrent)
             v.push_back(cs::Elem{i % 5, 3});
         return v;
     });
-    auto elems = concurrent ? rc::gen::oneOf(small, small, small, small, small, small, small, small, small, small, small, small, small, small, small, bulk) : small;
+    auto elems = concurrent ? rc::gen::oneOf(small, small, small, small, small, small, small, bulk) : small;
     return rc::gen::build<Op>(rc::gen::set(&Op::code, weighted<int>(codes)), rc::gen::set(&Op::k, uni_int(0, 7)), rc::gen::set(&Op::allow, weighted<int>({{6, 3}, {2, 1}, {2, 2}})),
                               rc::gen::set(&Op::ttl_ms, ttl), rc::gen::set(&Op::peek, rc::gen::map(uni_int(0, 2), [](int v) { return v == 0; })),
                               rc::gen::set(&Op::flavour, weighted<int>({{5, 0}, {2, 1}, {1, 2}, {1, 3}})), rc::gen::set(&Op::elems, elems),
